@@ -184,3 +184,7 @@ func Replay(choices []int, driver func(c *Chooser)) *Chooser {
 	}
 	return c
 }
+
+// Forced returns the choices this execution is replaying (for drivers that
+// run the implementation in another process and feed its decisions back).
+func (c *Chooser) Forced() []int { return c.forced }
